@@ -121,6 +121,14 @@ func buildStoreConfig(c *sim.RunCtx, s *rt.Sched, cfg *storeCfg, m *media, proc 
 	prevProc := me.Proc
 	me.Proc = proc
 	top := &pb.BlobAccessConfiguration{Backend: &pb.BlobAccessConfiguration_Local{Local: l}}
+	if cfg.Demux {
+		// every caller name N (also the empty one) is rewritten to tenant1/N on
+		// the way in and restored on the way out: visibility between callers'
+		// names must be exactly what it is without the demultiplexer
+		top = &pb.BlobAccessConfiguration{Backend: &pb.BlobAccessConfiguration_Demultiplexing{Demultiplexing: &pb.DemultiplexingBlobAccessConfiguration{
+			InstanceNamePrefixes: map[string]*pb.DemultiplexedBlobAccessConfiguration{"": {Backend: top, AddInstanceNamePrefix: "tenant1"}}}}}
+		c.Count("probe_wconfig_demultiplexer", 1)
+	}
 	if cfg.ExistCache {
 		// a decorator that keys by the digest key format the local backend
 		// announces (BlobAccessInfo.DigestKeyFormat)
